@@ -8,6 +8,7 @@ import BioscrapeModel.Model.Deterministic
 import BioscrapeModel.Model.Expr
 import BioscrapeModel.Model.Sbml
 import BioscrapeModel.Model.Lineage
+import BioscrapeModel.Model.PowText
 
 /-
 `modeldriver`: one JSON job per input line, one JSON answer per output line
@@ -644,6 +645,38 @@ def jobEntry (j : Json) : Except String Json := do
       ("timeAxis", Json.bool (storesTimeAxis c)),
       ("columns", Json.arr ((columns species n v).map Json.str).toArray)]
 
+open Bioscrape.PowText in
+/-- the power-text model on one expression tree (`{"atom": n}` / `{"pow": [a, b]}`). -/
+partial def decPowTree (j : Json) : Except String PowTree :=
+  match j.getObjVal? "atom" with
+  | .ok a => match a.getNat? with
+    | .ok n => pure (.atom n)
+    | .error e => throw e
+  | .error _ =>
+    match j.getObjVal? "pow" with
+    | .ok (Json.arr #[a, b]) => do
+      let x ← decPowTree a
+      let y ← decPowTree b
+      pure (.pow x y)
+    | _ => throw "bad tree"
+
+open Bioscrape.PowText in
+def encPowTree : PowTree → Json
+  | .atom n => Json.mkObj [("atom", Json.num (JsonNumber.fromNat n))]
+  | .pow a b => Json.mkObj [("pow", Json.arr #[encPowTree a, encPowTree b])]
+
+open Bioscrape.PowText in
+def jobPowText (j : Json) : Except String Json := do
+  let e ← decPowTree (← j.getObjVal? "tree")
+  let toks := printL3 e
+  let text := String.join (toks.map (fun t => match t with
+    | .id n => s!"x{n}" | .hat => "^" | .lp => "(" | .rp => ")"))
+  let read := match readE (2 * size e + 2) toks with
+    | some (r, []) => encPowTree r
+    | _ => Json.null
+  return Json.mkObj [("text", Json.str text), ("read", read), ("readBack", encPowTree (readBack e)),
+    ("leftAtomic", Json.bool (leftAtomic e))]
+
 def handle (line : String) : Json :=
   match Json.parse line with
   | .error e => Json.mkObj [("error", Json.str s!"parse: {e}")]
@@ -653,6 +686,7 @@ def handle (line : String) : Json :=
       let num := (getStrField j "num").toOption.getD "float"
       if op == "entry" then jobEntry j
       else if op == "annot" then jobAnnot j
+      else if op == "powtext" then jobPowText j
       else if op == "sbmlimport" then jobSbmlImport (α := Rat) j
       else if num == "rat" then dispatch (α := Rat) op j else dispatch (α := Float) op j
     match r with
